@@ -23,6 +23,7 @@ EXPLANATION = (
     " (R3, extended) the k-range reaches |E| + number of constraints; (R2, extended) max(1, lower bound) is accepted as start; (R9) the lower-bound graph of both cover searches is built with the additional starts / ends of the model (C10.R8), and the antichain network tests the weight function against None (an empty weight function means all weights 0, C17.R6). "
     "(0 iff all member edges are ignored).  NOT decided: cover "
     "optimality, width == minimum (min-max identity), correctness of the min-cost-flow reduction."
+    ' (R9, round 3) no recursion in the dominator / safe-sequence traversals.'
 )
 DECIDED = ["cover constraints present for every non-ignored edge", "search protocol and range of both minimum cover searches",
            "width call convention", "width cache keyed by 'nothing ignored'"]
